@@ -117,6 +117,7 @@ func (h *historyBuffer) ResetWithIndex(index uint64) {
 	h.head = 0
 	h.tail = 0
 	h.flushCount = defaultFlushCount
+	h.persist()
 }
 
 func (h *historyBuffer) GetNextIndex() uint64 {
